@@ -9,7 +9,8 @@ Shape B.  Three families of shards:
 * ``names`` -- the glyph-name grammar straight through ``encodingdb.name2unicode``.
 * ``tables``-- the four Latin encoding tables (as served by ``EncodingDB.get_encoding``) against
   independent sources (cp1252, mac_roman, the frozen Annex D PDFDocEncoding table, CFF standard strings).
-* ``share`` -- two fonts in one document (Differences overlay must not leak into the shared base table).
+* ``share`` -- two fonts in one document (Differences overlay must not leak into the shared base table); fonts of one
+  /Font resource dictionary given partly as indirect references and partly as direct dictionaries, in every order.
 """
 from __future__ import annotations
 
@@ -463,7 +464,14 @@ def jmodel(model):
 
 
 def unjmodel(j):
-    return [{"text": a, "adv": b, "tsrc": c, "wsrc": d, "name": e, "jt": f, "jw": g, "base": h} for a, b, c, d, e, f, g, h in j]
+    out = []
+    for row in j:
+        a, b, c, d, e, f, g, h = row[:8]
+        m = {"text": a, "adv": b, "tsrc": c, "wsrc": d, "name": e, "jt": f, "jw": g, "base": h}
+        if len(row) > 8 and row[8] is not None:
+            m["mixed"] = row[8]
+        out.append(m)
+    return out
 
 
 def ctx_of(vec) -> Dict[str, Any]:
@@ -768,6 +776,69 @@ def build_share(enc, diff, order):
     return pdf, [m for _, mm in seq for m in mm]
 
 
+# fonts listed in one /Font resource dictionary partly as indirect references, partly as direct (inline) dictionaries
+MIXED_FONTS = {
+    "A": ("WinAnsiEncoding", 0, 0),  # (base encoding, Differences index, widths index)
+    "B": ("MacRomanEncoding", 1, 1),
+    "C": ("StandardEncoding", 8, 3),
+}
+MIXED_LAYOUTS = [
+    (("A", "ind"), ("B", "dir")),
+    (("B", "dir"), ("A", "ind")),
+    (("B", "ind"), ("A", "dir")),
+    (("A", "ind"), ("B", "dir"), ("C", "ind")),
+    (("A", "ind"), ("B", "dir"), ("C", "dir")),
+    (("A", "dir"), ("B", "ind"), ("C", "dir")),
+    (("C", "ind"), ("C", "dir"), ("A", "dir")),
+]
+
+
+def mixed_docs():
+    for li in range(len(MIXED_LAYOUTS)):
+        for show in ("listed-order", "reverse-order"):
+            yield li, show
+
+
+def build_mixed(li: int, show: str):
+    lay = MIXED_LAYOUTS[li]
+    doc = Doc()
+    res: Dict[str, Any] = {}
+    models = {}
+    for n, (key, how) in enumerate(lay):
+        encn, di, wi = MIXED_FONTS[key]
+        vec = [0] * len(DIMS)
+        vec[1] = ENCODINGS.index(encn)
+        vec[3] = di
+        vec[5] = wi
+        _, model = build(tuple(vec))
+        d = DIFFS[di]
+        e: Any = N(encn)
+        if d is not None:
+            e = {"Type": N("Encoding"), "BaseEncoding": N(encn), "Differences": list(d)}
+        wk, bf, fc, wl, mw = WIDTHS[wi]
+        fd = {"Type": N("FontDescriptor"), "FontName": N(bf), "Flags": 32, "FontBBox": [0, -200, 1000, 800], "Ascent": 800, "Descent": -200,
+              "ItalicAngle": 0, "CapHeight": 700, "StemV": 80}
+        if mw is not None:
+            fd["MissingWidth"] = mw
+        f = {"Type": N("Font"), "Subtype": N("Type1"), "BaseFont": N(bf), "FirstChar": fc, "LastChar": fc + len(wl) - 1, "Widths": list(wl),
+             "FontDescriptor": fd, "Encoding": e}
+        name = "F%d" % (n + 1)
+        res[name] = doc.add(f) if how == "ind" else f
+        models[name] = (model, key, how, n)
+    names = list(res)
+    if show == "reverse-order":
+        names.reverse()
+    allc = ser(HexStr(bytes(range(256))))
+    content = b"BT " + b" ".join(b"/%s %d Tf 10 700 Td %s Tj" % (k.encode(), FONTSIZE, allc) for k in names) + b" ET"
+    pdf = page_doc(content, None, resources_extra={"Font": res}, doc=doc)
+    model = []
+    for k in names:
+        mm, key, how, n = models[k]
+        after_ind = how == "dir" and any(h == "ind" for _, h in lay[:n])
+        model += [dict(m, mixed="direct-after-indirect" if after_ind else how) for m in mm]
+    return pdf, model
+
+
 def compare_share(pdf, model):
     try:
         g = R.glyphs(pdf)[0]
@@ -779,12 +850,35 @@ def compare_share(pdf, model):
     for i, m in enumerate(model):
         if m["jt"] and g[i][0] != m["text"]:
             sig = classify("text", m, g[i][0], g[i][1], {})
-            if m["tsrc"] in ("base", "implicit-standard"):
+            if m.get("mixed") == "direct-after-indirect":
+                sig = "C06/direct-font-dict-answered-with-another-font"
+            elif m["tsrc"] in ("base", "implicit-standard") and "mixed" not in m:
                 sig = "C06/differences-overlay-leaks-into-shared-table"
             viol.append((sig, i, m["text"], g[i][0], f"glyph {i} (font shown #{i // 256 + 1}, code {i % 256}, source {m['tsrc']})"))
         if not R.close(g[i][1], m["adv"]):
-            viol.append(("C06/width:" + m["wsrc"], i, float(m["adv"]), g[i][1], f"glyph {i} advance"))
+            viol.append(("C06/direct-font-dict-answered-with-another-font" if m.get("mixed") == "direct-after-indirect" else "C06/width:" + m["wsrc"], i, float(m["adv"]), g[i][1], f"glyph {i} advance"))
     return viol, tuple(x[0] for x in g)
+
+
+def run_mixed(st) -> None:
+    for li, show in mixed_docs():
+        tables_changed()
+        pdf, model = build_mixed(li, show)
+        viol, obs = compare_share(pdf, model)
+        check_tables(st, pdf)
+        st.states += 1
+        st.transitions += 1
+        st.traces += 1
+        st.case(("mixed", li, show), nontrivial=True, outcome=obs)
+        for sig, i, exp, ob, what in viol:
+            if st.viol_counts[sig] >= st.MAX_VIOL_PER_SIG:
+                st.viol_counts[sig] += 1
+                continue
+            st.violation(sig, {"family": "share", "layout": [list(x) for x in MIXED_LAYOUTS[li]], "show": show, "index": i, "pdf": pdf, "model": jmodel_mixed(model)}, exp, ob, what)
+
+
+def jmodel_mixed(model):
+    return [row + [m.get("mixed")] for row, m in zip(jmodel(model), model)]
 
 
 def run_share(st) -> None:
@@ -858,6 +952,7 @@ def run_shard(shard, tier, st):
         st.sample({"family": "tables", "encodings": list(R.ENC_COLUMN)})
     elif fam == "share":
         run_share(st)
+        run_mixed(st)
     else:
         raise ValueError(shard)
 
